@@ -41,6 +41,15 @@ def step (line : String) : String :=
   | ["appendto", s, c, _] => match bytesOfHex s, bytesOfHex c with
     | some src, some cfg => showBytes (appendConfig src cfg)
     | _, _ => "bad-op"
+  | ["appendlink", s, c] => match bytesOfHex s, bytesOfHex c with
+    | some src, some cfg => showBytes (appendConfig src cfg)
+    | _, _ => "bad-op"
+  | ["appendhard", s, c] => match bytesOfHex s, bytesOfHex c with
+    | some src, some cfg => showBytes (appendConfig src cfg)
+    | _, _ => "bad-op"
+  | ["appendrel", s, c] => match bytesOfHex s, bytesOfHex c with
+    | some src, some cfg => showBytes (appendConfig src cfg)
+    | _, _ => "bad-op"
   | ["appendin", s, c] => match bytesOfHex s, bytesOfHex c with
     | some src, some cfg => showBytes (appendConfig src cfg)
     | _, _ => "bad-op"
@@ -63,7 +72,8 @@ def spec (line : String) (implOut : String) : String :=
   else match tokens line, tokens implOut with
     | "size" :: _, ["size", n] => if n.startsWith "-" then "fail negative-size" else "ok"
     | op :: s :: c :: _, ["ok", o] =>
-      if op == "append" || op == "appendto" || op == "appendin" then
+      if op == "append" || op == "appendto" || op == "appendin" || op == "appendlink" || op == "appendhard"
+          || op == "appendrel" then
         match bytesOfHex s, bytesOfHex c, bytesOfHex o with
         | some src, some cfg, some out =>
           if !cfg.isEmpty && readEmbedded out != .ok cfg then "fail roundtrip-read"
